@@ -1,7 +1,7 @@
 (* C17 tie, part B: traced multiplane_loss.__call__, perceptual_multiplane_loss.__call__ (base terms) and
    PSNR.forward against the reference model, for all reals. *)
 From Coq Require Import Reals Lra List.
-From OdakV Require Import Base.RealAux C17.Model C17.Lemmas.
+From OdakV Require Import Base.RealAux C17.Model C17.Lemmas C17.TieTac.
 From Run Require Import GenC17.
 Import ListNotations.
 Open Scope R_scope.
@@ -9,15 +9,15 @@ Open Scope R_scope.
 Lemma mp_all_model w0 w1 w2 x0 x1 t0 t1 m00 m01 m10 m11 :
   mp_all w0 w1 w2 x0 x1 t0 t1 m00 m01 m10 m11 =
   mp_loss w0 w1 w2 [(x0, t0); (x1, t1)] [(x0, t0, m00); (x1, t1, m01); (x0, t0, m10); (x1, t1, m11)].
-Proof. unfold mp_all, mp_loss, mse, rmean, sqd. simpl. field. Qed.
+Proof. unfold mp_all, mp_loss, mse, rmean, sqd. simpl. sem. Qed.
 Lemma mp_plane1_model w0 w1 w2 x0 x1 t0 t1 m00 m01 m10 m11 :
   mp_plane1 w0 w1 w2 x0 x1 t0 t1 m00 m01 m10 m11 =
   mp_loss w0 w1 w2 [(x0, t0); (x1, t1)] [(x0, t0, m10); (x1, t1, m11)].
-Proof. unfold mp_plane1, mp_loss, mse, rmean, sqd. simpl. field. Qed.
+Proof. unfold mp_plane1, mp_loss, mse, rmean, sqd. simpl. sem. Qed.
 Lemma pmp_all_model w0 w1 w2 v0 v1 v2 x0 x1 t0 t1 m00 m01 m10 m11 :
   pmp_all w0 w1 w2 v0 v1 v2 x0 x1 t0 t1 m00 m01 m10 m11 =
   pmp_loss w0 w1 w2 v0 v1 v2 [(x0, t0); (x1, t1)] [(x0, t0, m00); (x1, t1, m01); (x0, t0, m10); (x1, t1, m11)].
-Proof. unfold pmp_all, pmp_loss, mp_loss, mse, mae, rmean, sqd, abd. simpl. field. Qed.
+Proof. unfold pmp_all, pmp_loss, mp_loss, mse, mae, rmean, sqd, abd. simpl. sem. Qed.
 
 Theorem traced_multiplane_nonneg w0 w1 w2 x0 x1 t0 t1 m00 m01 m10 m11 : 0 <= w0 -> 0 <= w1 -> 0 <= w2 ->
   0 <= mp_all w0 w1 w2 x0 x1 t0 t1 m00 m01 m10 m11 /\ 0 <= mp_plane1 w0 w1 w2 x0 x1 t0 t1 m00 m01 m10 m11.
@@ -32,12 +32,7 @@ Proof. rewrite !pmp_all_model. split; [intros; apply pmp_nonneg; assumption|appl
 
 Lemma psnr_model p00 p01 p10 p11 t00 t01 t10 t11 peak :
   psnr_t p00 p01 p10 p11 t00 t01 t10 t11 peak = psnr peak (mse [(t00, p00); (t01, p01); (t10, p10); (t11, p11)]).
-Proof.
-  unfold psnr_t, psnr, log10.
-  match goal with |- _ * (ln (_ / sqrt ?e) / _) = _ =>
-    replace e with (mse [(t00, p00); (t01, p01); (t10, p10); (t11, p11)]) by (unfold mse, rmean, sqd; simpl; field) end.
-  reflexivity.
-Qed.
+Proof. unfold psnr_t, psnr, log10, mse, rmean, sqd. simpl. sem. Qed.
 (* PSNR grows as the error shrinks *)
 Theorem traced_psnr_antitone p00 p01 p10 p11 q00 q01 q10 q11 t00 t01 t10 t11 peak : 0 < peak ->
   0 < mse [(t00, p00); (t01, p01); (t10, p10); (t11, p11)] ->
